@@ -46,6 +46,8 @@ func runC04(p *load.Program, r *oblig.Report) {
 	c04EmptyArray(p, r)
 	c04VersionedRequests(p, r)
 	c04PageAccess(p, r)
+	c04RecordVersionBoundary(p, r, "C04.R16 the record format follows the Produce version")
+	varintAcrossRefills(p, r, "C04.R15 a varint of a response decodes to the value the broker encoded, however the bytes arrive")
 	// the v2 record batch inside a Produce body: header layout and back-patched fields (C05.R1)
 	shareRules(r, "C04", "C04.R10 the record batch of a produce request is canonical", func(sub *oblig.Report) { c05WriterV2(p, sub) })
 	// a response is consumed as exactly one frame also when it carries an error code (C11.R1)
